@@ -33,3 +33,13 @@ pub proof fn lemma_prefix_none(s: Seq<char>, p: Seq<char>, radix: u64)
         assert(p =~= s);
     }
 }
+// ---- decimal literals: the digits are read as an unsigned 64-bit number and reinterpreted as signed (bash: intmax_t wraps)
+pub uninterp spec fn dec_value_u64(s: Seq<char>) -> Option<u64>;      // None: more than 64 bits (or no digits)
+#[verifier::external_body] pub struct ParseIntError { _p: u8 }
+#[verifier::external_body]
+pub fn parse_u64(s: &str) -> (r: Result<u64, ParseIntError>)
+    ensures match dec_value_u64(s@) { Some(v) => r is Ok && r->Ok_0 == v, None => r is Err }
+{ unimplemented!() }
+// std: Result::unwrap_or
+pub assume_specification<T, E> [Result::<T, E>::unwrap_or] (r: Result<T, E>, d: T) -> (o: T)
+    ensures o == (match r { Ok(v) => v, Err(_) => d });
